@@ -280,6 +280,11 @@ func applyChange(content string, lines []string, change TextDocumentContentChang
 	startOffset := positionToOffset(lines, change.Range.Start)
 	endOffset := positionToOffset(lines, change.Range.End)
 
+	// Positions outside the document clamp to its bounds
+	if startOffset > len(content) {
+		startOffset = len(content)
+	}
+
 	// Build new content
 	var result strings.Builder
 	result.WriteString(content[:startOffset])
@@ -291,19 +296,32 @@ func applyChange(content string, lines []string, change TextDocumentContentChang
 	return result.String()
 }
 
-// positionToOffset converts a Position to a byte offset
+// positionToOffset converts a Position to a byte offset.
+//
+// Positions outside the document clamp: a negative line is the start of the
+// document, a line past the last line is the end of the document, a negative
+// character is the start of its line and a character past the end of a line
+// is the end of that line.
 func positionToOffset(lines []string, pos Position) int {
+	if pos.Line < 0 {
+		return 0
+	}
 	offset := 0
 	for i := 0; i < pos.Line && i < len(lines); i++ {
 		offset += len(lines[i]) + 1 // +1 for newline
 	}
-	if pos.Line < len(lines) {
-		lineLen := len(lines[pos.Line])
-		if pos.Character < lineLen {
-			offset += pos.Character
-		} else {
-			offset += lineLen
+	if pos.Line >= len(lines) {
+		// Past the last line: end of document (the last line has no newline)
+		if offset > 0 {
+			offset--
 		}
+		return offset
+	}
+	lineLen := len(lines[pos.Line])
+	if pos.Character >= lineLen {
+		offset += lineLen
+	} else if pos.Character > 0 {
+		offset += pos.Character
 	}
 	return offset
 }
